@@ -249,11 +249,13 @@ func (interp *Interpreter) cfg(root *node, sc *scope, importPath, pkgName string
 					lv.gen = loopVarVal
 				}
 			}
-			if n.anc != nil && n.anc.kind == forStmt7 {
-				lv := n.child[0]
-				init := n.anc.child[0]
-				if init.kind == defineStmt && len(init.child) >= 2 && init.child[0].kind == identExpr {
-					fi := init.child[0]
+			if n.anc != nil && hasForInit(n.anc) {
+				// The body works on a per-iteration copy of each variable defined by the init statement.
+				for i, fi := range forInitVars(n.anc) {
+					if fi.ident == "_" {
+						continue
+					}
+					lv := n.child[i]
 					lv.ident = fi.ident
 					lv.typ = fi.typ
 					vindex := sc.add(lv.typ)
@@ -738,13 +740,15 @@ func (interp *Interpreter) cfg(root *node, sc *scope, importPath, pkgName string
 					}
 					if sc.global || sc.isRedeclared(dest) {
 						shadow := false
-						if n.anc != nil && n.anc.anc != nil && (n.anc.anc.kind == forStmt7 || n.anc.anc.kind == rangeStmt) {
+						if n.anc != nil && n.anc.anc != nil && (hasForInit(n.anc.anc) || n.anc.anc.kind == rangeStmt) {
 							// check for redefine of for loop variables, which are now auto-defined in go1.22
 							init := n.anc.anc.child[0]
 							var fi *node // for ident
-							if n.anc.anc.kind == forStmt7 {
-								if init.kind == defineStmt && len(init.child) >= 2 && init.child[0].kind == identExpr {
-									fi = init.child[0]
+							if hasForInit(n.anc.anc) {
+								for _, v := range forInitVars(n.anc.anc) {
+									if v.ident == dest.ident {
+										fi = v
+									}
 								}
 							} else { // range
 								fi = init
@@ -1515,6 +1519,7 @@ func (interp *Interpreter) cfg(root *node, sc *scope, importPath, pkgName string
 		case forStmt1: // for init; ; {}
 			init, body := n.child[0], n.child[1]
 			n.start = init.start
+			setLoopVarBody(n, body)
 			init.tnext = body.start
 			body.tnext = body.start // the init statement is executed once
 			sc = sc.pop()
@@ -1544,6 +1549,7 @@ func (interp *Interpreter) cfg(root *node, sc *scope, importPath, pkgName string
 				err = cond.cfgErrorf("non-bool used as for condition")
 			}
 			n.start = init.start
+			setLoopVarBody(n, body)
 			if cond.rval.IsValid() {
 				// Condition is known at compile time, bypass test.
 				if cond.rval.Bool() {
@@ -1590,6 +1596,7 @@ func (interp *Interpreter) cfg(root *node, sc *scope, importPath, pkgName string
 		case forStmt6: // for init; ; post {}
 			init, post, body := n.child[0], n.child[1], n.child[2]
 			n.start = init.start
+			setLoopVarBody(n, body)
 			init.tnext = body.start
 			body.tnext = post.start
 			post.tnext = body.start
@@ -1601,7 +1608,7 @@ func (interp *Interpreter) cfg(root *node, sc *scope, importPath, pkgName string
 				err = cond.cfgErrorf("non-bool used as for condition")
 			}
 			n.start = init.start
-			body.start = body.child[0] // loopvar
+			setLoopVarBody(n, body)
 			if cond.rval.IsValid() {
 				// Condition is known at compile time, bypass test.
 				if cond.rval.Bool() {
@@ -1617,12 +1624,6 @@ func (interp *Interpreter) cfg(root *node, sc *scope, importPath, pkgName string
 			cond.tnext = body.start
 			setFNext(cond, n)
 			body.tnext = post.start
-			if body.child[0].gen != nil && body.child[0].ident != "_" {
-				// The body works on a per-iteration copy of the loop variable: before the post
-				// statement, at the end of the body block (also reached by continue), the loop
-				// variable takes the value of the copy.
-				body.gen = loopVarBack
-			}
 			sc = sc.pop()
 
 		case forRangeStmt:
@@ -2658,6 +2659,41 @@ func nextClause(clauses []*node, c *node) (next *node) {
 		}
 	}
 	return next
+}
+
+// hasForInit returns true if n is a for statement with an init clause.
+func hasForInit(n *node) bool {
+	switch n.kind {
+	case forStmt1, forStmt3, forStmt6, forStmt7:
+		return true
+	}
+	return false
+}
+
+// forInitVars returns the variables defined by the init clause of the for statement n.
+func forInitVars(n *node) []*node {
+	init := n.child[0]
+	if init.kind != defineStmt || len(init.child) < 2 || init.child[0].kind != identExpr {
+		return nil
+	}
+	nvar := 1
+	if init.nleft > 1 {
+		nvar = init.nleft
+	}
+	return init.child[:nvar]
+}
+
+// setLoopVarBody sets the entry point of the body of the for statement n, starting with the
+// per-iteration copies of the loop variables. At the end of the body block (also reached by
+// continue), the loop variables take the value of their copies, before the post statement
+// and the condition.
+func setLoopVarBody(n, body *node) {
+	body.start = body.child[0] // loopvar
+	for i, fi := range forInitVars(n) {
+		if fi.ident != "_" && body.child[i].gen != nil {
+			body.gen = loopVarBack
+		}
+	}
 }
 
 // GetDefault return the index of default case clause in a switch statement, or -1.
